@@ -44,7 +44,15 @@ def _boundaries():
     out.update(range(0xE000, 0xE010))
     out.update(range(0xFDC0, 0xFE00))
     out.update(range(0x10FFF0, 0x110000))
-    return sorted(c for c in out if c < 0x110000 and not (0xD800 <= c <= 0xDFFF))
+    # both sides of every change of general category (holes of unassigned code points inside blocks, block edges)
+    import unicodedata
+    prev = None
+    for c in range(0x110000):
+        cat = unicodedata.category(chr(c))
+        if cat != prev:
+            out.update((c - 1, c))
+            prev = cat
+    return sorted(c for c in out if 0 <= c < 0x110000 and not (0xD800 <= c <= 0xDFFF))
 
 
 BOUNDARY = _boundaries()
